@@ -744,6 +744,9 @@ func (c *hctx) rangeStmt(v *ast.RangeStmt, k func() term) term {
 	if !ok {
 		c.lostAt(v, "range over %s", src(v.X))
 	}
+	if _, isMap := tv.Type.Underlying().(*types.Map); isMap {
+		return c.rangeMap(v, k)
+	}
 	var pre []hbind
 	ls := &hloopSpec{node: v, body: v.Body}
 	var key *hvar
@@ -802,6 +805,60 @@ func (c *hctx) rangeStmt(v *ast.RangeStmt, k func() term) term {
 	ls.cond = func(pre *[]hbind) string { return "(" + key.name + " <? " + lim.name + ")" }
 	ls.post = func(k func() term) term { return tLet{key.name, key.name + " + 1", k()} }
 	ls.extraW = []*hvar{key}
+	return wrap(pre, c.loop(ls, k))
+}
+
+// rangeMap: for k, v := range m, m a map PARAMETER that the function does nothing else with: m is
+// the list of the entries in the order this iteration visits them (an input: Go leaves the order
+// open; that every key occurs once is a hypothesis of whoever instantiates the list, not checked).
+func (c *hctx) rangeMap(v *ast.RangeStmt, k func() term) term {
+	id, ok := ast.Unparen(v.X).(*ast.Ident)
+	var xv *hvar
+	if ok {
+		xv = c.lookup(id)
+	}
+	if xv == nil || xv.typ.k != "rmap" {
+		c.lostAt(v, "range over %s (must be a map parameter)", src(v.X))
+	}
+	if c.assigned(v.Body)[xv] {
+		c.lostAt(v, "assignment to %s inside a range over it", xv.name)
+	}
+	n := 0
+	ast.Inspect(c.fn.decl, func(x ast.Node) bool {
+		if i, ok := x.(*ast.Ident); ok && c.g.info.Uses[i] != nil && c.g.info.Uses[i] == c.g.info.Uses[id] {
+			n++
+		}
+		return true
+	})
+	if n != 1 {
+		c.lostAt(v, "map %s used other than by one range", xv.name)
+	}
+	var pre []hbind
+	ls := &hloopSpec{node: v, body: v.Body}
+	idx := c.synthVar(&c.synth, v, "r")
+	idx.pos = v.Pos()
+	lim := c.synthVar(&c.synthLim, v, "lim")
+	pre = append(pre, hbind{pat: lim.name, e: "zlen " + xv.name, isLet: true})
+	kn, vn := "_", "_"
+	if id, ok := v.Key.(*ast.Ident); ok && id.Name != "_" {
+		kv := c.declare(id, xv.typ.params[0])
+		ls.iterLoc = append(ls.iterLoc, kv)
+		kn = kv.name
+	}
+	if v.Value != nil {
+		if id, ok := v.Value.(*ast.Ident); ok && id.Name != "_" {
+			vv := c.declare(id, xv.typ.params[1])
+			ls.iterLoc = append(ls.iterLoc, vv)
+			vn = vv.name
+		}
+	}
+	ls.bodyPre = func() []hbind {
+		return []hbind{{pat: "(" + kn + ", " + vn + ")", m: tRaw{"go_get " + xv.name + " " + idx.name}}}
+	}
+	pre = append(pre, hbind{pat: idx.name, e: "0", isLet: true})
+	ls.cond = func(pre *[]hbind) string { return "(" + idx.name + " <? " + lim.name + ")" }
+	ls.post = func(k func() term) term { return tLet{idx.name, idx.name + " + 1", k()} }
+	ls.extraW = []*hvar{idx}
 	return wrap(pre, c.loop(ls, k))
 }
 
